@@ -100,7 +100,7 @@ theorem adx_def (ops : Ops K) (x : Ctx K)
     (hatr : ∀ v, (Ctx.on x (w v x.cs)).reading (x.name ++ "_atr") = .ok (.num a))
     (hpos : ∀ v, (Ctx.on x (w v x.cs)).reading (x.name ++ "_pos") = .ok (.num pos))
     (hneg : ∀ v, (Ctx.on x (w v x.cs)).reading (x.name ++ "_neg") = .ok (.num neg))
-    (hdx : ∀ cs, (Ctx.on x cs).reading (x.name ++ "_dx") = .ok (.s (sd cs))) :
+    (hdx : ∀ v1 v2, (Ctx.on x (cd (w v2 (w v1 x.cs)))).reading (x.name ++ "_dx") = .ok (.s (sd (cd (w v2 (w v1 x.cs)))))) :
     Calc.adx ops x =
       (let P := dmP h ph l pl
        let N := dmN h ph l pl
